@@ -2348,6 +2348,16 @@ class Kconfig(object):
                     # Same output in autoconf.h (which adds a missing 0x). No change.
                     continue
 
+                if (
+                    sym.orig_type is INT
+                    and sym._old_val is not None
+                    and _is_base_n(val, 10)
+                    and _is_base_n(sym._old_val, 10)
+                    and int(val, 10) == int(sym._old_val, 10)
+                ):
+                    # Same output in autoconf.h (which writes the number without leading zeros). No change.
+                    continue
+
             elif sym._old_val is None:
                 # The symbol wouldn't appear in autoconf.h (because
                 # _write_to_conf is false), and it wouldn't have appeared in
